@@ -25,7 +25,7 @@ CHECKS = {
     "C03": ("exploration", "seq", "runtime monitor: before/after directory abstraction around every re-bind attempt in bounded-exhaustive and random call sequences; linearizability oracle over scheduler-controlled triples with two binders of one pid; plus post-condition / invariant monitors wrapped round the public methods while the repository's own test suite runs (another author's inputs)",
             "All sequences up to length 3/4 over a 20-op menu that contain a store/tag on an already bound pid, plus random sequences with all data kinds and validation arguments; each attempt must raise an already-exists error and leave the abstraction unchanged (except a new unreferenced object).",
             "4/C03", SEQ_NOTE),
-    "C04": ("exploration", "seq", "runtime monitor: retrieve every bound pid byte-for-byte after every call over all delete orders of sharing pids with interleaved hostile calls; invariant at a hook (no object unlinked while its cid list is non-empty) under scheduler-controlled interleavings; plus post-condition / invariant monitors wrapped round the public methods while the repository's own test suite runs (another author's inputs)",
+    "C04": ("exploration", "seq", "runtime monitor: retrieve every bound pid byte-for-byte after every call over all delete orders of sharing pids with interleaved hostile calls; invariant at a hook (no object unlinked while its cid list is non-empty) under scheduler-controlled interleavings, also with an I/O fault injected into one of the contending calls; plus post-condition / invariant monitors wrapped round the public methods while the repository's own test suite runs (another author's inputs)",
             "k=2..4 prefix-related pids share one object; every delete order x noise call (wrong-data delete_if_invalid, rejected stores, metadata) is run and every still-bound pid is retrieved after each call; last delete must remove the object.",
             "4/C04", SEQ_NOTE),
     "C06": ("exploration", "seq", "runtime monitor: independent verdict oracle (hashlib + len) over the full product of content x algorithm x spelling x checksum case x size x prior state x entry point; plus post-condition / invariant monitors wrapped round the public methods while the repository's own test suite runs (another author's inputs)",
@@ -75,8 +75,8 @@ CHECKS.update({
     "C09": ("fault_enumeration", "fault", "runtime monitor: observer reading every permanent file after EVERY file-system operation of a writer (single calls and scheduler-controlled concurrent writers), staging-file ownership monitor, free-running reader thread (thorough)",
             "Complete enumeration of the operation boundaries of 30 (start state, call) cases plus observed concurrent schedules; at each boundary every permanent object / metadata / pid-ref file is read and checked (digest == name, one supplied version, one complete cid, presence changes at most once).",
             "4/C09", FAULT_NOTE),
-    "C10": ("fault_enumeration", "fault", "runtime monitor: fork + os._exit() before each mutating operation in turn, then a fresh instance inspects and recovers the store",
-            "Complete enumeration of crash points (every mutating operation incl. buffer-flush and flush-before-truncate points) of 23 (start state, call) cases; bystanders, interrupted pid and the delete+store recovery are checked on a fresh instance.",
+    "C10": ("fault_enumeration", "fault", "runtime monitor: fork + os._exit() before each mutating operation in turn (and inside descriptor-level writes, half written), then a fresh instance inspects the store, recovers the interrupted pid and runs a second delete / store round",
+            "Complete enumeration of crash points (every mutating operation incl. buffer-flush and flush-before-truncate points) of 29 (start state, call) cases x 5 identifier / configuration variants (thorough); bystanders, interrupted pid, the delete+store recovery and a second round of it are checked on a fresh instance.",
             "4/C10", FAULT_NOTE),
     "C13": ("fault_enumeration", "fault", "runtime monitor: OSError injected at each fault site in turn (EIO/ENOSPC/EACCES, one-off and persistent per operation class), post-state diffed against the fault-free run, retry executed; probe audited against strace on every run",
             "Complete enumeration of fault sites x 3 errnos x 2 persistence modes of 23 (start state, call) cases; outcome vs effect, unbound-and-retryable pid, previous metadata version, bystanders.",
